@@ -1,7 +1,7 @@
 #!/bin/bash
 # usage: confirm_seed.sh <PID> <k>   confirms /tmp/wt/out/<PID>/m<k> in a scratch worktree of /repo HEAD and, if confirmed,
 # stores it as /verif/seeded/<PID>-m<k>/ {patch.diff, demo.py, notes.md, meta.json (partial)}
-pid=$1; k=$2; src=/tmp/wt/out/$pid/m$k; wt=/tmp/seedcheck_$pid$k
+pid=$1; k=$2; src=${SEED_OUT:-/tmp/wt/out}/$pid/m$k; wt=/tmp/seedcheck_$pid$k
 [ -f $src/patch.diff ] || { echo "no patch"; exit 2; }
 git -C /repo worktree add --detach $wt HEAD >/dev/null 2>&1 || { echo "worktree failed"; exit 2; }
 PP=$wt/cirq-core:$wt/cirq-google:$wt/cirq-ionq:$wt/cirq-aqt:$wt/cirq-pasqal
